@@ -155,4 +155,42 @@ theorem phase1_fails_perm (emptyGlobal : Bytes → Bool) (l m : List Bytes) (hpe
     simp only [Function.comp, h1]
     rw [keysOf_no_brace _ _ (by rw [contains_lower _ nl_brace]; exact hb), keysOf_no_brace _ _ hb]
 
+/-- a duplicate-free list, provisioned, matches like its plain scan — every size, every threshold -/
+theorem provisioned_matchX (f : Bytes → Bytes) (hf : ∀ e, fuzzy e = false → f e = e) (thr : Nat)
+    (l : List Bytes) (rhost : Bytes) (hnd : hasDup (l.map lower) = false) :
+    ∃ m, provisionHost thr l = some m ∧
+      matchHostX f thr m rhost = l.any (fun e => entryMatches (stripPort rhost) (f e)) := by
+  unfold provisionHost
+  rw [hnd]
+  simp only [Bool.false_eq_true, if_false]
+  by_cases hl : l.length > thr
+  · rw [if_pos hl]
+    exact ⟨_, rfl, matchHostX_sorted f hf thr l _ rhost hl (sortHosts_perm _) (sortHosts_sorted _)⟩
+  · rw [if_neg hl]
+    exact ⟨_, rfl, matchHostX_small f thr l rhost hl⟩
+
+theorem dedupCI_spec : ∀ (ds seen : List Bytes),
+    ((dedupCI seen ds).map lower).Nodup ∧ ∀ x, x ∈ (dedupCI seen ds).map lower → x ∉ seen
+  | [], _ => by simp [dedupCI]
+  | d :: ds, seen => by
+    unfold dedupCI
+    by_cases h : seen.contains (lower d) = true
+    · rw [if_pos h]; exact dedupCI_spec ds seen
+    · rw [if_neg h]
+      have ih := dedupCI_spec ds (lower d :: seen)
+      have hns : lower d ∉ seen := by
+        intro hm; exact h (List.contains_iff_mem.mpr hm)
+      simp only [List.map_cons, List.nodup_cons, List.mem_cons]
+      refine ⟨⟨?_, ih.1⟩, ?_⟩
+      · intro hm
+        exact ih.2 _ hm List.mem_cons_self
+      · intro x hx
+        rcases hx with hx | hx
+        · subst hx; exact hns
+        · intro hs; exact ih.2 x hx (List.mem_cons_of_mem _ hs)
+
+theorem dedupCI_no_dup (ds : List Bytes) : hasDup ((dedupCI [] ds).map lower) = false := by
+  rw [Bool.eq_false_iff, Ne, hasDup_iff, Classical.not_not]
+  exact (dedupCI_spec ds []).1
+
 end CaddyModel.C06
